@@ -759,7 +759,22 @@ def check(run, db, tier):
     run.rule('C16.bayer', 'site slices partition the 2x2 cell; every function maps colours to the same sites for both layouts; demosaicking copies raw samples at native sites')
     run.rule('C16.kernel', 'each Malvar kernel sums to one after its normalisation')
     run.rule('C16.bin', "bindown reduces the factor axes with mean/sum; tile scales by 1/prod(factor) ('sum') or 1 ('avg'); the two views are transposes")
-    for fn in (clamp_rules, live_state_rules, bayer_rules, cfa_passthrough_rules, bin_rules, accumulate_rules):
+    # binning / tiling and the Bayer routines decided on values first (small concrete arrays of symbolic samples): every output sample
+    # is a rational-linear form in the input samples.  The readings of the code below defer to that where they cannot read the organisation.
+    from .c16values import bin_value_rules, bayer_value_rules
+    decided = {'bin': run.group(bin_value_rules, run, db), 'bayer': run.group(bayer_value_rules, run, db)}
+
+    def reading(fn, key):
+        def rule(run, db):
+            try:
+                return fn(run, db)
+            except AnalysisError as e:
+                if not decided.get(key):
+                    raise
+                run.info('%s does not read this organisation of the routines (%s); decided on values (%d cases)' % (fn.__name__, str(e)[:140], decided[key]))
+        rule.__name__ = fn.__name__
+        return rule
+    for fn in (clamp_rules, live_state_rules, reading(bayer_rules, 'bayer'), reading(cfa_passthrough_rules, 'bayer'), reading(bin_rules, 'bin'), accumulate_rules):
         run.group(fn, run, db)
     run.require_instances('C16.bayer', 15)
     run.require_instances('C16.kernel', 4)
